@@ -152,6 +152,7 @@ type stats struct {
 	TreesDone   []int          `json:"trees_done"` // indices completed (ascending)
 	States      map[string]int `json:"states"`     // trees materialised per file system
 	Evals       map[string]int `json:"evals"`      // evaluations compared per function
+	Spelled     map[string]int `json:"spelled"`    // of these, with the operand not in its shortest form: function:rel|abs:spelling -> count
 	Classes     map[string]int `json:"classes"`    // (func, oracle result class) -> count
 	BuildFailed map[string]int `json:"build_failed,omitempty"`
 	Samples     []any          `json:"samples,omitempty"`
@@ -174,7 +175,7 @@ type checker struct {
 func newChecker(R string, u universe, name string) *checker {
 	return &checker{
 		R: R, u: u, viols: map[string]*violation{},
-		st: stats{Worker: name, States: map[string]int{}, Evals: map[string]int{}, Classes: map[string]int{}, BuildFailed: map[string]int{}},
+		st: stats{Worker: name, States: map[string]int{}, Evals: map[string]int{}, Spelled: map[string]int{}, Classes: map[string]int{}, BuildFailed: map[string]int{}},
 	}
 }
 
@@ -376,6 +377,10 @@ func (c *checker) checkTree(es []ent, ops []mop, qs querySet, qr []qres, fsList 
 			got := evalQuery(v, q, arg)
 			c.st.Evals[q.Func]++
 
+			if q.Sp != "" {
+				c.st.Spelled[q.Func+":"+relName(q.Rel)+":"+q.Sp]++
+			}
+
 			for _, d := range compare(q, want, got) {
 				path := d.Path
 				if in.bp && d.HasPath {
@@ -383,6 +388,11 @@ func (c *checker) checkTree(es []ent, ops []mop, qs querySet, qr []qres, fsList 
 				}
 
 				sig := map[string]string{"fs": fsName, "func": q.Func, "kind": d.Kind, "want": d.Want, "got": d.Got}
+
+				// how the operand was spelled, if not in its shortest form
+				if q.Sp != "" {
+					sig["spelling"] = q.Sp
+				}
 
 				switch q.Func {
 				case "Glob":
